@@ -743,15 +743,33 @@ impl TransactionalMemory {
         self.storage.invalidate_cache_all();
         self.storage.sync_file()?;
 
+        let (live_layout_len, live_primary_id) = {
+            let state = self.state.lock().unwrap();
+            (
+                state.header.layout().len(),
+                state.header.primary_slot().transaction_id,
+            )
+        };
+
         let header_bytes = self.storage.read_direct(0, DB_HEADER_SIZE)?;
         let unrepaired = UnrepairedDatabaseHeader::from_bytes(&header_bytes, self.page_size)?;
-        let (header, was_clean) = unrepaired.finalize(self.storage.raw_file_len()?)?;
+        let (header, mut was_clean) = unrepaired.finalize(self.storage.raw_file_len()?)?;
         if !was_clean {
             self.storage
                 .write(0, DB_HEADER_SIZE, true)?
                 .mem_mut()
                 .copy_from_slice(&header.to_bytes(true));
             self.storage.flush()?;
+            // grow() makes the longer file durable at once, but the layout only reaches the header
+            // with the next commit. A transaction that grew the file and then aborted therefore
+            // leaves the stored layout behind the file. That is this process's own bookkeeping, not
+            // damage: the primary slot was kept and the file has exactly the length this process
+            // last gave it, so a healthy database must not be reported as repaired.
+            if header.primary_slot().transaction_id == live_primary_id
+                && header.layout().len() == live_layout_len
+            {
+                was_clean = true;
+            }
         }
 
         {
